@@ -182,12 +182,38 @@ pub struct SysCase {
     /// deliver every block, in order, through the EAR input
     #[serde(default)]
     pub fastload_enabled: bool,
+    /// an SZX snapshot (of the rig's own RAM) whose KEYB chunk carries no "issue 2" flag is loaded
+    /// before the tape is inserted: whatever keyboard issue the file asks for, EAR carries the tape
+    #[serde(default)]
+    pub szx_keyb_first: bool,
 }
 
 pub fn check_sys(c: &SysCase, rec: &mut Rec) -> Result<(), String> {
     let blocks: Vec<Vec<u8>> = c.blocks.iter().map(block_bytes).collect();
     let image = tap::write(&blocks);
     let mut rig = c10::mk_rig(c.machine, c.ram_seed, c.fastload_enabled);
+    if c.szx_keyb_first {
+        use crate::formats::szx;
+        let is128 = c.machine == Machine::K128;
+        let st = szx::SzxState {
+            machine_id: if is128 { 2 } else { 1 },
+            regs: RegFile { pc: 0x8000, sp: c10::SP0, im: 1, ..Default::default() },
+            memptr: 0,
+            cycles: 1000,
+            halted: false,
+            ei_last: false,
+            f_set: false,
+            border: 2,
+            latch: if is128 { 0x10 } else { 0 },
+            fe: 2,
+            ay: None,
+            kempston_joystick: Some(false),
+            mouse: None,
+        };
+        let file = szx::write(&st, &rig.m.ram, &szx::Layout::default());
+        rig.e.load_snapshot(rustzx_core::host::Snapshot::Szx(MemAsset::new(file))).map_err(|x| format!("load_snapshot(SZX with KEYB): {:?}", x))?;
+        rec.class("szx-with-keyb-chunk-loaded-before-the-tape");
+    }
     rig.e.load_tape(Tape::Tap(DynAsset::new(MemAsset::new(image)))).map_err(|x| format!("load_tape: {:?}", x))?;
     rig.e.play_tape();
     for (k, rq) in c.requests.iter().enumerate() {
@@ -348,9 +374,9 @@ pub fn sys_strategy() -> impl Strategy<Value = SysCase> {
         proptest::collection::vec(small_block(), 1..=2),
         proptest::collection::vec(c10::rq_strategy(), 2..=2),
         any::<u64>(),
-        any::<bool>(),
+        (any::<bool>(), prop_oneof![2 => Just(false), 1 => Just(true)]),
     )
-        .prop_map(|(machine, blocks, requests, ram_seed, fastload_enabled)| SysCase { machine, blocks, requests, ram_seed, fastload_enabled })
+        .prop_map(|(machine, blocks, requests, ram_seed, (fastload_enabled, szx_keyb_first))| SysCase { machine, blocks, requests, ram_seed, fastload_enabled, szx_keyb_first })
 }
 
 pub fn run(run: &mut Run) {
